@@ -150,6 +150,8 @@ def jobs(tier):
     for ns in range(1, (3 if q else 4) + 1):
         for nd in range(2, (3 if q else 4) + 1):
             for evenly, mc in ((True, 'inf'), (False, 'sym')):
+                if ns == 4 and nd == 4 and mc == 'sym':
+                    continue     # two capped random calls over 4 x 4 do not finish within the budget
                 out.append({'id': f'twocall|{ns}|{nd}|{int(evenly)}|{mc}', 'harness': 'vk.kernels.c18:randomly',
                             'params': {'ns': ns, 'nd': nd, 'evenly': evenly, 'mc': mc, 'mode': 'twocall'}, 'budget_s': 300})
     for ns in range(0, 4):
